@@ -4,6 +4,7 @@ import SeqVerif.Model.BulkMeta
 import SeqVerif.Model.BulkMetaCodec
 import SeqVerif.Model.BulkCompose
 import SeqVerif.Model.BulkResponse
+import SeqVerif.Model.BulkConfig
 import SeqVerif.Model.CollectorLemmas
 import SeqVerif.Extracted.C10
 /-!
@@ -269,6 +270,31 @@ theorem c10_model_total (E : Env) (hB : 2 ≤ E.B) (checkN : Nat) (kind : Bytes 
     · cases h
     · split at h <;> cases h
 
+/-- **C10 (validity is a property of the whole line).**  Whatever the first byte of a line the reader yields -
+`[`, `"`, `-`, a digit, `t`, `f`, `n`, `{` or anything else - if the line as a whole is not valid JSON (oracle
+`kind`, a function of the complete line) the request is rejected and nothing is stored: no prefix of a line can
+turn "invalid" into "skipped". -/
+theorem c10_invalid_regardless_of_first_byte (E : Env) (checkN : Nat) (kind : Bytes → Kind) (mk : Bytes → List Meta)
+    (storeOk : Bool) (body : Bytes) (b : Nat) (rest : Bytes)
+    (hy : (b :: rest) ∈ (readAll E checkN body).1) (hk : kind (b :: rest) = .invalid) :
+    (∃ e, (processDocuments E checkN kind mk storeOk body).resp = .error e) ∧
+      (processDocuments E checkN kind mk storeOk body).stored = none :=
+  c10_invalid_stores_nothing E checkN kind mk storeOk body (Or.inr ⟨b :: rest, hy, hk⟩)
+
+/-- **C10 (the configured drifts are the effective drifts).**  `setDefaults`, the first statement of
+`proxyapi.NewIngestor`, leaves `AllowedTimeDrift` and `FutureAllowedTimeDrift` as configured for every value,
+0 included ("no drift allowed" stays "no drift allowed"): the `(drift, fut)` of the time rule are the operator's. -/
+theorem c10_config_preserves_drifts (dS dE dI : Int) (c : ProxyCfg) :
+    (setDefaults dS dE dI c).allowedTimeDrift = c.allowedTimeDrift ∧
+    (setDefaults dS dE dI c).futureAllowedTimeDrift = c.futureAllowedTimeDrift :=
+  setDefaults_drifts dS dE dI c
+
+/-- with drift 0 / 0 a document one hour old and a document one minute ahead both get the receive time, a document
+stamped exactly with the receive time keeps it -/
+example : ruleTime (some (1790000000000000000 - 3600000000000)) 1790000000000000000 0 0 = 1790000000000000000 ∧
+    ruleTime (some (1790000000000000000 + 60000000000)) 1790000000000000000 0 0 = 1790000000000000000 ∧
+    ruleTime (some 1790000000000000000) 1790000000000000000 0 0 = 1790000000000000000 := by decide
+
 /-! ## time rule -/
 
 open SV.Extracted.C10 in
@@ -462,6 +488,15 @@ theorem c10_x_drift_wiring :
     getProcessorCalls = ["return procEface.(*processor)",
       "return newBulkProcessor(i.config.MappingProvider.GetMapping(), i.tokenizers, i.config.AllowedTimeDrift, i.config.FutureAllowedTimeDrift, index)",
       "newBulkProcessor(i.config.MappingProvider.GetMapping(), i.tokenizers, i.config.AllowedTimeDrift, i.config.FutureAllowedTimeDrift, index)"] :=
+  ⟨rfl, rfl⟩
+
+/-- `setDefaults` tests and assigns exactly three fields (search timeout, export timeout, max inflight bulks),
+`NewIngestor` calls it first and builds the bulk ingestor from `config.Bulk` -/
+theorem c10_x_set_defaults :
+    setDefaultsAssigns = ["c.API.SearchTimeout == 0: c.API.SearchTimeout = consts.DefaultSearchTimeout",
+      "c.API.ExportTimeout == 0: c.API.ExportTimeout = consts.DefaultExportTimeout",
+      "c.Bulk.MaxInflightBulks == 0: c.Bulk.MaxInflightBulks = consts.IngestorMaxInflightBulks"] ∧
+    newIngestorSteps = ["config.setDefaults()", "bulk.NewIngestor(config.Bulk, bulkClient)"] :=
   ⟨rfl, rfl⟩
 
 /-! ## Non-vacuity -/
